@@ -95,7 +95,7 @@ def _worker(job):
                 "uses": [], "loops": [], "used_loop_contracts": [], "target": None, "proves": None, "note": "", "known_reproduced": []}
 
 
-def native_replay(replay_path, timeout=120):
+def native_replay(replay_path, timeout=40):
     env = dict(os.environ)
     env["PYTHONPATH"] = os.pathsep.join([os.path.join(VERIF, "native"), VERIF, REPO_SRC])
     try:
